@@ -203,14 +203,14 @@ int vp_case(Choice& c, Report& rep) {
         const CatRef& ce = M.cats[(size_t)M.fr[(size_t)(e - 1)].cat];
         if (ce.end > e && ce.start >= b) for (int f = e; f < ce.end; f++) if (!M.gext[(size_t)f].empty()) f3 = true;
       }
-      if (f3) { rep.label("out:f3-class"); if (rep.exclude("F3")) continue; }
+      if (f3) rep.label("out:f3-class");   // fixed finding F3 (repo commit e18ed156)
       // known finding F7: extension payload carried over makes the output exceed 1277 bytes per frame
       bool f7_certain = n_ext > 0 && frame_bytes + ext_bytes + 1 > 1277L * cnt;
       if (f7_certain) { rep.label("out:f7-class"); if (rep.exclude("F7")) continue; }
-      // known finding F12: the padding of a packet overlapping the range is not a well-formed extension sequence (legal per RFC 6716 3.2.5).
+      // known finding F20: the padding of a packet overlapping the range is not a well-formed extension sequence (legal per RFC 6716 3.2.5).
       // (The unchanged tree only trips when that packet's first frame is selected; the class is the packet-level one so that it does
       // not depend on where the implementation keeps the padding.)
-      if (bad_ext) { rep.label("out:f12-class"); if (rep.exclude("F12")) continue; }
+      if (bad_ext) rep.label("out:f20-class");   // fixed finding F20 (repo commit bbb9d66b)
       long cap = 64 + 4L * cnt + frame_bytes + ext_bytes + 8L * n_ext + ext_bytes / 100 + 600;
       HeapBuf<uint8_t> big((size_t)cap);
       memset(big.p, 0x5A, (size_t)cap);
